@@ -44,6 +44,9 @@ def replay_cmd(cfg, binpath, pid, path):
         head = open(path, errors="replace").read(300)
     except OSError:
         head = ""
+    for line in head.splitlines():
+        if line.startswith("#! target "):
+            return [os.path.join(vflib.harness_dir(TARGETS[line.split()[2]]["variant"]), line.split()[2]), "--replay", pid, path]
     if "#! kind handle_index" in head:
         return [os.path.join(vflib.harness_dir("opt"), "t_handles"), "--replay", path]
     return [binpath, "--replay", pid, path]
@@ -111,7 +114,7 @@ def ddmin_program(cfg, binpath, pid, path, budget_s=240):
     return tmp
 
 
-def confirm_and_store(cfg, binpath, pid, cand_path, why):
+def confirm_and_store(cfg, binpath, pid, cand_path, why, also=None):
     """Replay 3x; store under replays/<pid>/ and return stored path, or None if not reproducible."""
     outs = []
     for _ in range(3):
@@ -126,7 +129,8 @@ def confirm_and_store(cfg, binpath, pid, cand_path, why):
     dst = os.path.join(d, "fail-%s.txt" % h)
     # keep the annotated rendering produced by the replay runner if available
     rendered = [l for l in outs[-1].splitlines() if l and not l.startswith("REPLAY-") and not l.startswith("=") and "Sanitizer" not in l]
-    open(dst, "w").write("#! id %s\n#! why %s\n" % (pid, why.replace("\n", " ")[:400]) + "\n".join(
+    tline = "#! target %s\n" % also["target"] if also else ""
+    open(dst, "w").write("#! id %s\n%s#! why %s\n" % (pid, tline, why.replace("\n", " ")[:400]) + "\n".join(
         l for l in text.splitlines() if not l.startswith("#!")) + "\n")
     return dst, outs[-1]
 
@@ -198,23 +202,32 @@ def run_rc_program(pid, tier, cfg):
         extra_cov = PRE[cfg["pre"]](pid, violations)
     procs = []
     nworkers = min(tcfg["workers"], NCPU)
+    # optional additional target serving the same property (e.g. C03 through the tetrahedral collapse harness)
+    also = cfg.get("also")
+    also_bin = build_targets([also["target"]])[also["target"]] if also else None
+    main_bin = binpath
     for i in range(nworkers):
+        binpath = also_bin if (also and i >= nworkers - also["workers"]) else main_bin
         d = os.path.join(wdir, "w%d" % i)
         os.makedirs(d)
         env = sanitizer_env()
-        env["RC_PARAMS"] = "seed=%d max_success=%d max_size=%d" % (seed_for(base_seed(), pid, i), tcfg["max_success"], tcfg["max_size"])
-        env["VF_LEN_SCALE"] = str(tcfg.get("len_scale", 0.6))
+        ms, ls = tcfg["max_success"], tcfg.get("len_scale", 0.6)
+        if binpath == also_bin and also:
+            ms, ls = also[tier + "_max_success"], also.get("len_scale", ls)
+        env["RC_PARAMS"] = "seed=%d max_success=%d max_size=%d" % (seed_for(base_seed(), pid, i), ms, tcfg["max_size"])
+        env["VF_LEN_SCALE"] = str(ls)
         for k, v in tcfg.get("env", {}).items():
             env[k] = str(v)
         lf = open(os.path.join(d, "log.txt"), "w")
         p = subprocess.Popen([binpath, "--run", pid, "--out", os.path.join(d, "stats.json"), "--work", d],
                              stdout=lf, stderr=subprocess.STDOUT, env=env)
-        procs.append((i, d, p, lf))
+        procs.append((i, d, p, lf, binpath))
+    binpath = main_bin
     deadline = time.time() + tcfg.get("timeout", 900)
     timed_out = 0
     merged = {"evaluations": 0, "counters": {}, "hashes": set(), "samples": []}
     candidates = []
-    for i, d, p, lf in procs:
+    for i, d, p, lf, wbin in procs:
         try:
             rc = p.wait(timeout=max(1, deadline - time.time()))
         except subprocess.TimeoutExpired:
@@ -241,18 +254,18 @@ def run_rc_program(pid, tier, cfg):
         lastfail = os.path.join(d, "lastfail.txt")
         inflight = os.path.join(d, "inflight.txt")
         if rc == 1 and os.path.exists(lastfail):
-            candidates.append((lastfail, "oracle", d))
+            candidates.append((lastfail, "oracle", d, wbin))
         elif os.path.exists(inflight):
-            candidates.append((inflight, "abort rc=%s" % rc, d))
+            candidates.append((inflight, "abort rc=%s" % rc, d, wbin))
         else:
             log("warning: worker %d exited rc=%s without a case file; see %s/log.txt" % (i, rc, d))
             merged["counters"]["worker_abnormal_exit"] = merged["counters"].get("worker_abnormal_exit", 0) + 1
     seen = set()
     nonrepro = 0
-    for path, why, d in candidates:
+    for path, why, d, wbin in candidates:
         if why != "oracle":
-            path = ddmin_program(cfg, binpath, pid, path)
-        stored, out = confirm_and_store(cfg, binpath, pid, path, why)
+            path = ddmin_program(cfg, wbin, pid, path)
+        stored, out = confirm_and_store(cfg, wbin, pid, path, why, also if wbin != main_bin else None)
         if stored is None:
             nonrepro += 1
             continue
